@@ -392,6 +392,46 @@ func (g *qGen) selections(t *TypeSpec, depth int, top bool) []string {
 			}
 		}
 	}
+	if g.k.RepeatKeys && depth >= 2 && t.Kind != "ROOT" && g.budget > 0 && g.pct(12) {
+		// one response key selected twice with different sub-selections (the answers merge): the first
+		// goes one object deeper than the second, so that when both cross services the deeper
+		// insertion point is met before its own prefix
+	search:
+		for _, fl2 := range g.fieldsOf(t) {
+			if scalarNames[fl2.Type.Named] {
+				continue
+			}
+			tt := g.f.Type(fl2.Type.Named)
+			if tt == nil {
+				continue
+			}
+			for _, fl3 := range g.fieldsOf(tt) {
+				t3 := g.f.Type(fl3.Type.Named)
+				if scalarNames[fl3.Type.Named] || t3 == nil {
+					continue
+				}
+				sc := func(x *TypeSpec) []string {
+					parts := []string{}
+					for _, sf := range g.fieldsOf(x) {
+						if scalarNames[sf.Type.Named] && sf.Name != "id" {
+							parts = append(parts, sf.Name+g.args(sf))
+						}
+					}
+					if len(parts) == 0 {
+						parts = []string{"id"}
+					}
+					return parts
+				}
+				g.nalias++
+				key := fmt.Sprintf("rk%d", g.nalias)
+				a2 := g.args(fl2)
+				g.feats["same-key-two-depths"]++
+				out = append(out, fmt.Sprintf("%s: %s%s { %s%s { %s } }", key, fl2.Name, a2, fl3.Name, g.args(fl3), strings.Join(sc(t3), " ")))
+				out = append(out, fmt.Sprintf("%s: %s%s { %s }", key, fl2.Name, a2, strings.Join(sc(tt), " ")))
+				break search
+			}
+		}
+	}
 	if g.k.Typename && g.pct(15) {
 		g.feats["typename"]++
 		out = append(out, "__typename")
